@@ -115,9 +115,11 @@ def install():
     for m in (rpyc.core.stream, rpyc.lib, rpyc.utils.server, rpyc.utils.registry, rpyc.utils.factory,
               rpyc.core.protocol):
         _set(m, "socket", fsocket)
-    # polling
-    _set(rpyc.core.stream, "poll", net.Poll)
-    _set(rpyc.utils.server, "poll", net.Poll)
+    # polling: the kernel's poll() is simulated; rpyc's own wrapper around it (rpyc.lib.compat.PollingPoll) stays real
+    fselect = net.make_select_module()
+    MODS["select"] = fselect
+    _set(rpyc.lib.compat, "select_module", fselect)
+    _set(rpyc.lib.compat, "select", fselect.select)
     # pipes
     _set(rpyc.core.stream, "os", fos)
     # jitter
@@ -131,7 +133,8 @@ def install():
     import socket as _rsock
     import queue as _rq
     import random as _rrandom
-    real_to_fake = [(_rt.Lock, sync.Lock), (_rt.RLock, sync.RLock), (_rt.Condition, sync.Condition), (_rt.Event, sync.Event),
+    import select as _rselect
+    real_to_fake = [(_rselect, fselect), (_rselect.select, fselect.select), (_rt.Lock, sync.Lock), (_rt.RLock, sync.RLock), (_rt.Condition, sync.Condition), (_rt.Event, sync.Event),
                     (_rt.Thread, sync.Thread), (_rq.Queue, sync.Queue), (_rt, fthreading), (_rtime, ftime), (_rsock, fsocket), (_rq, fqueue),
                     (_rrandom, frandom), (_rtime.time, ftime.time), (_rtime.sleep, ftime.sleep), (_rsock.socket, net.SockObj)]
     for mname, mod in sorted(sys.modules.items()):
